@@ -1,4 +1,5 @@
 """C07 - packet decoders accept exactly the well-formed packets (differential vs a strict reference reader)."""
+import contextlib
 import struct
 
 from hypothesis import strategies as st
@@ -394,6 +395,58 @@ def run_sequence(case):
     return r
 
 
+def run_threads(case):
+    """Two or three threads decode their own (fixed) packets at the same time, over and over: a decoder is a function of the bytes it
+    is given, also when another thread is in the middle of decoding something else."""
+    import sys
+    import threading
+    r = Result()
+    try:
+        built = [build(sub) for sub in case['inputs']]
+    except Exception:
+        r.discarded = True
+        return r
+    results = [Result() for _ in built]
+    errors = []
+
+    def work(i):
+        dec, w = built[i]
+        try:
+            for _ in range(case['n']):
+                _one(results[i], dec, w, case['inputs'][i]['fam'], case['inputs'][i])
+                if any(not v.signature.endswith('/overrun-clamped-by-slicing') for v in results[i].violations):
+                    break
+        except Exception as e:      # noqa
+            errors.append(f'{type(e).__name__}: {e!r}'[:200])
+    old = sys.getswitchinterval()
+    sys.setswitchinterval(1e-6)
+    _THREADS[0] = True
+    try:
+        ths = [threading.Thread(target=work, args=(i,)) for i in range(len(built))]
+        for t in ths:
+            t.start()
+        for t in ths:
+            t.join()
+    finally:
+        sys.setswitchinterval(old)
+        _THREADS[0] = False
+    for e in errors:
+        r.bad('C07/threads/decoder-or-comparison-raised', e)
+    for res in results:
+        for v in res.violations:
+            if not v.signature.endswith('/overrun-clamped-by-slicing'):
+                r.bad(v.signature.replace('C07/', 'C07/threads/', 1), '[while other threads were decoding] ' + v.detail)
+    r.key = tuple(b[0] for b in built)
+    r.classes = ('threads', f'threads:{len(built)}')
+    return r
+
+
+def _threads_case():
+    seeds = list(_seed_specs())
+    one = st.sampled_from(seeds).map(lambda g: {'fam': 'grammar', 'g': g})
+    return st.fixed_dictionaries({'inputs': st.lists(one, min_size=2, max_size=3), 'n': st.sampled_from([60, 150])})
+
+
 def _canaries():
     """Fixed well-formed packets decoded at the end of every sequence: whatever came before, they read as they always do."""
     plain = {'kind': 'interest', 'case': {'kind': 'interest', 'name': [[8, '706c61696e'], [8, '78']], 'name_rep': 0, 'digest_pos': None,
@@ -417,12 +470,16 @@ def _sequence_case():
     return st.one_of(any_seq, one_dec, one_dec).filter(lambda xs: len(xs) >= 2).map(lambda xs: {'inputs': xs})
 
 
+_THREADS = [False]
+
+
 def _one(r, dec, w, fam, case):
     lib_fn, ref_fn = DECODERS[dec]
     budget = 5000 + 60 * len(w)
     lib_out = lib_err = None
     try:
-        with LineBudget(budget):
+        # (the line budget rests on sys.monitoring, which is per interpreter: not used while several threads decode)
+        with (contextlib.nullcontext() if _THREADS[0] else LineBudget(budget)):
             lib_out = lib_fn(w)
     except BudgetExceeded as e:
         r.bad(f'C07/{dec}/line-budget-exceeded', f'{e} for {len(w)} input bytes: {w.hex()[:120]}')
@@ -540,6 +597,9 @@ SUBCHECKS = {
                              note='every single byte substitution (6 values) / truncation / byte insert / byte delete at every offset and every '
                                   'structural edit at every tree position of 5 seed packets (thorough); a stride-5 sample in quick'),
     'inputs': SubCheck(run_case, strategy=lambda tier: _input_case(), examples={'quick': 12000, 'thorough': 600000}),
+    'threads': SubCheck(run_threads, strategy=lambda tier: _threads_case(), examples={'quick': 40, 'thorough': 400},
+                        note='2..3 threads decoding fixed well-formed packets concurrently (switch interval 1 us), 60..150 rounds each; '
+                             'sound but probabilistic: a clean run does not show thread safety'),
     'sequences': SubCheck(run_sequence, strategy=lambda tier: _sequence_case(), examples={'quick': 3000, 'thorough': 100000},
                           note='2..8 inputs decoded one after the other in the same process (half of the sequences through one decoder), '
                                'each compared with the strict reading of that input alone; non-trivial = an accepted input after a rejected one'),
